@@ -345,14 +345,97 @@ theorem stmtRun_bare (cfg : StmtCfg) (hk : cfg.modelKey = []) (s : StmtState) (o
     exact ih _ (stmtStep_bare cfg hk s op hb (ho op List.mem_cons_self))
       (fun o h => ho o (List.mem_cons_of_mem _ h))
 
-theorem bare_rejected (cfg : StmtCfg) (hk : cfg.modelKey = []) (hag : cfg.allowGlobal = false) (s : StmtState)
+theorem bare_rejected (ce : Bool) (cfg : StmtCfg) (hk : cfg.modelKey = []) (hag : cfg.allowGlobal = false) (s : StmtState)
     (hb : Bare cfg s) (k : FinKind) (hw : k.isWrite = true) (same : Bool) :
-    finRejected cfg s k [] same = true := by
+    finRejected ce cfg s k [] same = true := by
   have hb' := finWhere_bare cfg hk s hb k same
   unfold finRejected
   rw [hw, hag]
   rcases hb' with h1 | ⟨f, _, h2⟩
   · rw [h1]; simp [missingWhere]
+  · rw [h2]; simp [missingWhere]
+
+/-! #### the same with `Clauses(clause.Where{})` among the condition-free calls (guard that counts expressions) -/
+
+/-- calls that supply no condition — INCLUDING a `clause.Where` that holds no expression -/
+def opCondFree : StmtOp → Bool
+  | .cond _ f => !f.cond.isSome
+  | .clauseWhere es => es.isEmpty
+  | .unscoped => true
+  | .fin _ vk _ => vk.isEmpty
+
+/-- WHERE states reachable through such calls: no entry or an EMPTY entry (no marker), or exactly the filter with its
+    marker -/
+def BareEW (cfg : StmtCfg) (w : WhereState) : Prop :=
+  (w.softEnabled = false ∧ (w.exprs = none ∨ w.exprs = some [])) ∨
+  (∃ f, cfg.soft = some f ∧ w = { exprs := some [.atom f], softEnabled := true })
+
+theorem bareEW_fresh (cfg : StmtCfg) : BareEW cfg StmtState.fresh.w := Or.inl ⟨rfl, Or.inl rfl⟩
+
+theorem addWhere_nil_bareEW (cfg : StmtCfg) (w : WhereState) (hb : BareEW cfg w) : BareEW cfg (addWhere w []) := by
+  rcases hb with ⟨hm, hn | he⟩ | ⟨f, hf, h2⟩
+  · exact Or.inl ⟨hm, Or.inr (by simp [addWhere, hn])⟩
+  · exact Or.inl ⟨hm, Or.inr (by simp [addWhere, he])⟩
+  · subst h2; exact Or.inr ⟨f, hf, by simp [addWhere]⟩
+
+theorem modifyBy_bareEW (cfg : StmtCfg) (un : Bool) (w : WhereState) (hb : BareEW cfg w) :
+    BareEW cfg (modifyBy cfg un w) := by
+  rcases hb with ⟨hm, hx⟩ | ⟨f, hf, h2⟩
+  · cases hc : cfg.soft with
+    | none => rw [modifyBy_none cfg un _ hc]; exact Or.inl ⟨hm, hx⟩
+    | some f =>
+      rw [modifyBy_some cfg un _ f hc]
+      cases un with
+      | true => rw [softDeleteModify_unscoped]; exact Or.inl ⟨hm, hx⟩
+      | false =>
+        refine Or.inr ⟨f, hc, ?_⟩
+        rcases hx with hn | he
+        · simp [softDeleteModify, hm, hn]
+        · simp [softDeleteModify, hm, he]
+  · subst h2
+    rw [modifyBy_some cfg un _ f hf, softDeleteModify_of_marker un f _ rfl]
+    exact Or.inr ⟨f, hf, rfl⟩
+
+theorem stmtStep_bareEW (cfg : StmtCfg) (hk : cfg.modelKey = []) (s : StmtState) (op : StmtOp)
+    (hb : BareEW cfg s.w) (ho : opCondFree op = true) : BareEW cfg (stmtStep cfg s op).w := by
+  cases op with
+  | cond o f =>
+    have hn : f.cond.isSome = false := by simpa [opCondFree] using ho
+    have : stmtStep cfg s (.cond o f) = s := by
+      simp [stmtStep, chainStep_nil_of_none o f hn]
+    rw [this]; exact hb
+  | clauseWhere es =>
+    have he : es = [] := by simpa [opCondFree] using ho
+    subst he
+    exact addWhere_nil_bareEW cfg s.w hb
+  | unscoped => exact hb
+  | fin k vk same =>
+    have hv : vk = [] := by simpa [opCondFree] using ho
+    subst hv
+    show BareEW cfg (finWhere cfg s k [] same)
+    rw [finWhere_of_nokeys cfg s k [] same (writeKeys_nil cfg hk k same)]
+    exact modifyBy_bareEW cfg _ _ hb
+
+theorem stmtRun_bareEW (cfg : StmtCfg) (hk : cfg.modelKey = []) (s : StmtState) (ops : List StmtOp)
+    (hb : BareEW cfg s.w) (ho : ∀ op ∈ ops, opCondFree op = true) : BareEW cfg (stmtRun cfg s ops).w := by
+  induction ops generalizing s with
+  | nil => exact hb
+  | cons op r ih =>
+    exact ih _ (stmtStep_bareEW cfg hk s op hb (ho op List.mem_cons_self))
+      (fun o h => ho o (List.mem_cons_of_mem _ h))
+
+/-- a guard that counts expressions rejects a key-less write in every such state -/
+theorem bareEW_rejected (cfg : StmtCfg) (hk : cfg.modelKey = []) (hag : cfg.allowGlobal = false) (s : StmtState)
+    (hb : BareEW cfg s.w) (k : FinKind) (hw : k.isWrite = true) (same : Bool) :
+    finRejected true cfg s k [] same = true := by
+  have hb' : BareEW cfg (finWhere cfg s k [] same) := by
+    rw [finWhere_of_nokeys cfg s k [] same (writeKeys_nil cfg hk k same)]
+    exact modifyBy_bareEW cfg _ _ hb
+  unfold finRejected
+  rw [hw, hag]
+  rcases hb' with ⟨hm, hn | he⟩ | ⟨f, _, h2⟩
+  · simp [missingWhere, hn]
+  · simp [missingWhere, he, hm]
   · rw [h2]; simp [missingWhere]
 
 /-- states in which a condition is present: the entry exists, is non-empty, and holds more than the filter -/
@@ -423,15 +506,17 @@ theorem modifyBy_mn (cfg : StmtCfg) (un : Bool) (w : WhereState) (h : MNW w) : M
         intro _
         exact ⟨_, softDeleteModify_exprs f w hw, by simp⟩
 
-theorem missingWhere_rich (ag : Bool) (w : WhereState) (h : RichW w) : missingWhere ag w = false := by
-  obtain ⟨es, he, _, hl⟩ := h
+theorem missingWhere_rich (ce ag : Bool) (w : WhereState) (h : RichW w) : missingWhere ce ag w = false := by
+  obtain ⟨es, he, hne, hl⟩ := h
   unfold missingWhere
   cases ag with
   | true => rfl
   | false =>
     simp only [Bool.false_eq_true, if_false, he]
     cases hs : w.softEnabled with
-    | false => simp
+    | false =>
+      have : es.isEmpty = false := by cases es with | nil => exact absurd rfl hne | cons _ _ => rfl
+      simp [this]
     | true => have := hl hs; simp; omega
 
 theorem markerInv_nonempty (cfg : StmtCfg) (s : StmtState) (h : MarkerInv cfg s) : MarkerNonempty s := by
@@ -472,19 +557,19 @@ theorem stmtRun_rich (cfg : StmtCfg) (s : StmtState) (ops : List StmtOp) (h : Ri
   | nil => exact h
   | cons op r ih => exact ih _ (stmtStep_rich cfg s op h)
 
-theorem rich_admitted (cfg : StmtCfg) (s : StmtState) (h : Rich s) (k : FinKind) (vk : List Atom) (same : Bool) :
-    finRejected cfg s k vk same = false := by
+theorem rich_admitted (ce : Bool) (cfg : StmtCfg) (s : StmtState) (h : Rich s) (k : FinKind) (vk : List Atom) (same : Bool) :
+    finRejected ce cfg s k vk same = false := by
   have hr : RichW (finWhere cfg s k vk same) :=
     finWhere_preserve RichW cfg s k vk same h (fun w new hw => addWhere_rich w new hw)
       (fun w hw => modifyBy_rich cfg _ w hw)
   unfold finRejected
-  rw [missingWhere_rich _ _ hr, Bool.and_false]
+  rw [missingWhere_rich _ _ _ hr, Bool.and_false]
 
 /-- a write whose value (or Model) carries a key is admitted from every state in which marker ⇒ non-empty entry
     (except an Update that reuses the SET entry an earlier soft delete left on the statement: it adds no key) -/
-theorem keyed_admitted (cfg : StmtCfg) (s : StmtState) (hm : MarkerNonempty s) (k : FinKind) (vk : List Atom) (same : Bool)
+theorem keyed_admitted (ce : Bool) (cfg : StmtCfg) (s : StmtState) (hm : MarkerNonempty s) (k : FinKind) (vk : List Atom) (same : Bool)
     (hkeys : writeKeys cfg k vk same ≠ []) (hset : k = .update → s.keys.contains "SET" = false) :
-    finRejected cfg s k vk same = false := by
+    finRejected ce cfg s k vk same = false := by
   have hmap : (writeKeys cfg k vk same).map Ex.atom ≠ [] := by simpa using hkeys
   have hemp : ((writeKeys cfg k vk same).map Ex.atom).isEmpty = false := by
     cases hx : (writeKeys cfg k vk same).map Ex.atom with
@@ -497,13 +582,13 @@ theorem keyed_admitted (cfg : StmtCfg) (s : StmtState) (hm : MarkerNonempty s) (
       simp only [finWhere, hemp, hs, Bool.or_self, Bool.false_eq_true, if_false]
       exact addWhere_rich_of_mn _ _ (modifyBy_mn cfg _ _ hm) hmap
     unfold finRejected
-    rw [missingWhere_rich _ _ hr, Bool.and_false]
+    rw [missingWhere_rich _ _ _ hr, Bool.and_false]
   | delete =>
     have hr : RichW (finWhere cfg s .delete vk same) := by
       simp only [finWhere, hemp, Bool.false_eq_true, if_false]
       exact modifyBy_rich cfg _ _ (addWhere_rich_of_mn _ _ hm hmap)
     unfold finRejected
-    rw [missingWhere_rich _ _ hr, Bool.and_false]
+    rw [missingWhere_rich _ _ _ hr, Bool.and_false]
   | _ => simp [finRejected, FinKind.isWrite]
 
 end Gorm
